@@ -57,6 +57,7 @@ type c15Gate struct {
 	conns []net.Conn
 	up    bool           // scripted server (real-call histories): answer or stay silent
 	got   map[int32]bool // request ids this server has read
+	code  int32          // return code of the answers (0 = success; non-zero = server-side / framework error reply)
 }
 
 var c15Gates []*c15Gate
@@ -189,7 +190,7 @@ func (r *c15Registrar) QueryServantBySet(ctx context.Context, id, _ string) ([]t
 // ---------- ops (the replayable case) and observations ----------
 
 type c15Op struct {
-	K     string `json:"k"`               // adv | out | call | check | reinst | refresh | net | up
+	K     string `json:"k"`               // adv | out | call | check | reinst | refresh | net | up | code (D = return code of the server's answers)
 	D     int64  `json:"d,omitempty"`     // adv: seconds
 	E     int    `json:"e"`               // out: endpoint whose attached adapter is charged; net: endpoint
 	Ok    bool   `json:"ok,omitempty"`    // out: answered / failed; net: reachable
@@ -494,6 +495,12 @@ func (r *c15Run) exec(op *c15Op, last bool) {
 		r.up[op.E] = op.Ok
 		c15Gates[op.E].setUp(op.Ok)
 		op.Txt = fmt.Sprintf("server %d answers=%v", op.E, op.Ok)
+	case "code":
+		g := c15Gates[op.E]
+		g.mu.Lock()
+		g.code = int32(op.D)
+		g.mu.Unlock()
+		op.Txt = fmt.Sprintf("server %d answers with return code %d", op.E, op.D)
 	case "out":
 		a, ok := r.mgr.Adapters()[c15Gates[op.E].host]
 		if !ok {
@@ -744,6 +751,7 @@ func c15RunOnce(c *c15Case) (*c15Run, bool) {
 		g.mu.Lock()
 		g.up = r.up[i]
 		g.got = nil
+		g.code = 0
 		g.mu.Unlock()
 	}
 	if c.E2E {
